@@ -57,7 +57,10 @@ confirmed, and caught by C15 `one-line-source/presence`, against the commit
 before the fix). A tenth round of twelve (`R01-r10` … `R12-r10`) asked for
 *refactoring-style* changes of 10–40 lines (recursion ↔ loop, a standard-library
 helper instead of hand-written code, merging near-duplicates, hoisting, caching,
-simplified conditions) that read as behaviour-preserving. Nothing from `/verif` was ever
+simplified conditions) that read as behaviour-preserving, and an eleventh round
+of twelve (`P01-r11` … `P12-r11`) named one *particular clause* of a property that
+no earlier change had gone for (four clauses of C07, two each of C02, C05 and
+C19, one each of C12 and C03). Nothing from `/verif` was ever
 shown. Each was **confirmed independently** before being kept
 (`tools/confirm_mutant.sh`): the patch applies to the clean tree, the library
 builds with and without the `verif` tag, the demonstration passes without the
@@ -76,7 +79,7 @@ suite is thin.
 Outcome: **every one of the {n} changes is reported as a VIOLATION by the quick
 tier of the check of the property it was written against** (seed 1). About a
 quarter of them were *missed* by the version of the monitor that existed when
-they arrived (round 1: 3, round 2: 8, round 3: 7, round 4: 2, round 5: 3, round 6: 4, round 7: 7, round 8: 4, round 9: 6, round 10: 2, plus two
+they arrived (round 1: 3, round 2: 8, round 3: 7, round 4: 2, round 5: 3, round 6: 4, round 7: 7, round 8: 4, round 9: 6, round 10: 2, round 11: 1, plus two
 regression found by re-running every stored change against its own check after
 the harness had changed — `tools/diag.sh`: `K07-r5` and `C20-r2` had been caught
 through coincidences of the generator; the tool also prints how many violation
@@ -112,6 +115,11 @@ of the API.
   `payloads-dropped` (every structured payload except nested `EncodedError`s
   removed, wire messages and reportable strings kept; `V12-r9`); the kind
   `gstatusf`, `grpc/status.Errorf` with an unsafe argument (`V10-r9`).
+* **C02** — `e` arriving from a sender on another platform (errno payloads
+  rewritten as in C11), directly and relayed: every negative answer and every
+  sentinel match is compared with the origin's; positive answers against locally
+  built errno references carry no obligation, a foreign errno being deliberately
+  not identified with the local one of the same name (`P05-r11`).
 * **C02** — the kind `keymarkwrap`, a third-party wrapper with a type-key
   extension (`ErrorKeyMarker`) (`R01-r10`).
 * **C04** — the unknowing-process simulation got a second mode (`NoProto`): the
